@@ -7,7 +7,7 @@ import NitroVerif.Model.SkipConc
     threads <n>                     (once per case, 1 ≤ n ≤ 64)             -> ok
     start <t> ins <k> lvl=<L>                                             -> at <POINT> | ret <true|false>
     start <t> del <k> | look <k>                                          -> at <POINT> | ret <true|false>
-    start <t> it_first <i>                                                -> ret <key|end>
+    start <t> it_first <i>          (iterator names <i> are arbitrary tokens) -> ret <key|end>
     start <t> it_seek <i> <k>                                             -> at <POINT> | ret <key|end>
     start <t> it_next <i>           (bad-op unless iterator i exists and is valid) -> at <POINT> | ret <key|end>
     start <t> it_close <i>                                                -> ret
@@ -21,6 +21,14 @@ open NitroVerif NitroVerif.SkipConc
 structure SkipConcSt where
   sys : Sys := {}
   made : Bool := false
+  /-- iterator names of the script (arbitrary tokens); the model names an iterator by its index here -/
+  names : List String := []
+
+/-- index of an iterator name, adding it if new -/
+def internName (names : List String) (n : String) : List String × Nat :=
+  match names.idxOf? n with
+  | some i => (names, i)
+  | none => (names ++ [n], names.length)
 
 def commaList (l : List String) : String := if l.isEmpty then "." else ",".intercalate l
 
@@ -44,20 +52,20 @@ def showStats (st : Stats) : String :=
   s!"nodes={sumInts st.dist} soft={st.soft} allocs={st.allocs} frees={st.frees} dist=" ++
     commaList (dist.map toString)
 
-def parseOp : List String → Option Op
+def parseOp (names : List String) : List String → Option (List String × Op)
   | ["ins", k, l] =>
     match k.toNat?, natArg [l] "lvl" with
-    | some k, some l => some (.ins k l)
+    | some k, some l => some (names, .ins k l)
     | _, _ => none
-  | ["del", k] => k.toNat?.map .del
-  | ["look", k] => k.toNat?.map .look
-  | ["it_first", i] => i.toNat?.map .itFirst
+  | ["del", k] => k.toNat?.map fun k => (names, .del k)
+  | ["look", k] => k.toNat?.map fun k => (names, .look k)
+  | ["it_first", i] => let r := internName names i; some (r.1, .itFirst r.2)
   | ["it_seek", i, k] =>
-    match i.toNat?, k.toNat? with
-    | some i, some k => some (.itSeek i k)
-    | _, _ => none
-  | ["it_next", i] => i.toNat?.map .itNext
-  | ["it_close", i] => i.toNat?.map .itClose
+    match k.toNat? with
+    | some k => let r := internName names i; some (r.1, .itSeek r.2 k)
+    | none => none
+  | ["it_next", i] => let r := internName names i; some (r.1, .itNext r.2)
+  | ["it_close", i] => let r := internName names i; some (r.1, .itClose r.2)
   | _ => none
 
 def skipConcStep (s : SkipConcSt) (toks : List String) : SkipConcSt × String :=
@@ -69,10 +77,10 @@ def skipConcStep (s : SkipConcSt) (toks : List String) : SkipConcSt × String :=
       else ({ sys := { threads := List.replicate n {} }, made := true }, "ok")
     | none => (s, "bad-op")
   | "start" :: t :: rest =>
-    match s.made, t.toNat?, parseOp rest with
-    | true, some t, some op =>
+    match s.made, t.toNat?, parseOp s.names rest with
+    | true, some t, some (names, op) =>
       let r := s.sys.start t op
-      ({ s with sys := r.1 }, r.2)
+      ({ s with sys := r.1, names := names }, r.2)
     | _, _, _ => (s, "bad-op")
   | ["step", t] =>
     match s.made, t.toNat? with
